@@ -53,6 +53,12 @@ def gen_case(idx: int, seed: int, tier: str) -> Any:
         rng = case_rng(PROPERTY, seed, idx)
         return {"kind": "nested", "backend": rng.choice(["asyncio", "trio"]), "outer_async": rng.random() < 0.5, "inner_async": rng.random() < 0.5,
                 "outer_fails_first": rng.random() < 0.7, "in_child": rng.random() < 0.5, "multi_type": rng.random() < 0.5}
+    if idx % 20 == 7:
+        from vkit.harness import case_rng
+
+        rng = case_rng(PROPERTY, seed, idx)
+        return {"kind": "pending_cancel", "backend": rng.choice(["asyncio", "trio"]), "factory": rng.choice(["sync", "async_shielded", "async"]),
+                "nested": rng.random() < 0.5, "api": rng.choice(["get_resource", "inject"]), "multi_type": rng.random() < 0.5}
     return {"seed": f"{seed}:{idx}", "want_sample": idx % 97 == 0, "over": {"p_invalid": 0.1, "p_bad_name": 0.05},
             "weights": {"construct": 10, "enter": 5, "leave": 4, "add_resource": 28, "add_factory": 18, "lookup": 34, "race": 8}}
 
@@ -185,9 +191,110 @@ def run_nested(case: dict[str, Any]) -> dict[str, Any]:
     return {"violations": V[:3], "sig": ("nested", tuple(sorted(case.items()))), "nontrivial": True, "counters": c, "sample": None}
 
 
+async def pending_cancel_scenario(case: dict[str, Any], out: dict[str, Any]) -> None:
+    """a lookup that has to generate the resource is made from a scope that has *already been cancelled* (the cancellation is pending, not
+    yet delivered).  Whether the lookup then completes or is cancelled is up to where it yields - but the context never ends up holding
+    a generated resource that was not announced, nor announces one it does not hold"""
+    import anyio
+    from asphalt.core import Context, ResourceEvent, inject, resource
+
+    Made = type("Made", (), {})  # noqa: N806
+    Also = type("Also", (), {})  # noqa: N806
+    types = [Made, Also] if case["multi_type"] else [Made]
+    made: list[Any] = []
+
+    def sync_factory() -> Any:
+        made.append(Made())
+        return made[-1]
+
+    async def async_factory() -> Any:
+        if case["factory"] == "async_shielded":
+            with anyio.CancelScope(shield=True):
+                await anyio.sleep(0.5)  # (finishes its work whatever happens to the caller)
+        else:
+            await anyio.sleep(0.5)
+        made.append(Made())
+        return made[-1]
+
+    @inject
+    async def injected(*, thing: Made = resource()) -> Any:
+        return thing
+
+    heard: list[Any] = []
+
+    async def body() -> None:
+        async with Context() as ctx, anyio.create_task_group() as tg:
+            ready = anyio.Event()
+
+            async def listen() -> None:
+                async with ctx.resource_added.stream_events() as stream:
+                    ready.set()
+                    async for ev in stream:
+                        heard.append(ev)
+
+            tg.start_soon(listen)
+            await ready.wait()
+            ctx.add_resource_factory(sync_factory if case["factory"] == "sync" else async_factory, types=types)
+            with anyio.CancelScope() as scope:
+                scope.cancel()
+                try:
+                    out["got"] = await (ctx.get_resource(Made) if case["api"] == "get_resource" else injected())
+                    out["lookup"] = "returned"
+                except BaseException as e:
+                    out["lookup"] = "raised " + type(e).__name__
+                    raise
+            await anyio.wait_all_tasks_blocked()
+            out["stored"] = dict(ctx.get_resources(Made))
+            out["stored_also"] = dict(ctx.get_resources(Also))
+            tg.cancel_scope.cancel()
+
+    if case["nested"]:
+        async with Context():
+            await body()
+    else:
+        await body()
+    out["generation_events"] = [(ev.resource_types, ev.resource_name) for ev in heard if isinstance(ev, ResourceEvent) and not ev.is_factory]
+    out["made"] = len(made)
+
+
+def run_pending_cancel(case: dict[str, Any]) -> dict[str, Any]:
+    from vkit.trace import describe_exc
+    from vkit.vtime import VirtualDeadlock, run_virtual
+
+    out: dict[str, Any] = {}
+    V: list[dict[str, Any]] = []
+
+    def bad(key: str, msg: str) -> None:
+        if not any(v["key"] == key for v in V):
+            V.append({"key": key, "msg": msg, "witness": {"case": case, "observed": {k: repr(v)[:300] for k, v in out.items()}}})
+
+    try:
+        run_virtual(case["backend"], pending_cancel_scenario, case, out)
+    except VirtualDeadlock as e:
+        bad("history-deadlock", f"the scenario never finished: {e}")
+    except Exception as e:
+        bad("announce-unexpected", f"the scenario raised {describe_exc(e)}")
+    if not V:
+        stored, events = out.get("stored", {}), out.get("generation_events", [])
+        if stored and not events:
+            bad("announce-missing", f"a lookup made under a pending cancellation ({out.get('lookup')}) left a generated resource in the context that was never announced")
+        elif events and not stored:
+            bad("announce-unexpected", f"a lookup made under a pending cancellation ({out.get('lookup')}) announced a generated resource the context does not hold")
+        elif len(events) > 1:
+            bad("announce-unexpected", f"{len(events)} generation events for one generation")
+        elif events and case["multi_type"] and len(events[0][0]) != 2:
+            bad("announce-fields", f"the generation event names the types {events[0][0]}; the factory was declared for two")
+        if out.get("lookup") == "returned" and (not stored or out.get("got") is not stored.get("default")):
+            bad("announce-unexpected", "the lookup returned an object that the context does not hold")
+    c = {"lookups_made_under_a_pending_cancellation": 1, "lookups_under_a_pending_cancellation_that_stored_a_resource": int(bool(out.get("stored")))}
+    return {"violations": V[:3], "sig": ("pending_cancel", tuple(sorted(case.items())), out.get("lookup")), "nontrivial": True, "counters": c, "sample": None}
+
+
 def run_case(case: Any) -> dict[str, Any]:
     if case.get("kind") == "nested":
         return run_nested(case)
+    if case.get("kind") == "pending_cancel":
+        return run_pending_cancel(case)
     return common.run_case(PROPERTY, case)
 
 
